@@ -8,6 +8,7 @@ import PQ.Lemmas.SrcEquivOps2
 import PQ.Lemmas.SrcEquivBulk
 import PQ.Lemmas.SrcEquivBulkQ
 import PQ.Lemmas.SrcEquivExtend
+import PQ.Lemmas.SrcEquivPanic
 /-!
 # Source-translated tie: audit file
 
@@ -66,6 +67,17 @@ comparison counter `ticks`), the same result value, the same fault with the same
 | `From<Vec>`, `FromIterator`, `From<other queue>`, `Deserialize` (both queues) | `SrcGen.{pq,dq}From{Vec,Iter,Queue}`, `{pq,dq}Deserialize` | `{MaxQ,DQ}.{fromVec,fromIter,ofStore,deserialize}` | `SrcEquiv.{pq,dq}From…`, `{pq,dq}Deserialize` |
 
 | `Extend` (both queues: `reserve`, `better_to_rebuild`, rebuild or push loop) | `SrcGen.{pq,dq}Extend` | `{MaxQ,DQ}.extend` | `SrcEquiv.{pq,dq}Extend` |
+
+Under panics (`PQ/Model/SrcF.lean`: the `fuse`-th comparison panics, frames unwind, the translated `Drop for Hole` runs):
+
+| Rust function | fused twin of `PQ/Model/Crash.lean` | theorem |
+|---|---|---|
+| `PriorityQueue::bubble_up` | `Crash.MaxQ.bubbleUpF` | `SrcEquivF.pqBubbleUpF` |
+| `PriorityQueue::push` of a new item (`size += 1` BEFORE the sift-up) | `Crash.MaxQ.pushF` | `SrcEquivF.pqPushF_new` |
+| `DoublePriorityQueue::bubble_up_min` / `bubble_up_max` (seen from the owner of the hole) | `Crash.DQ.bubbleUpMinLoopF` / `bubbleUpMaxLoopF` | `SrcEquivF.call_dqBubbleUpMinF` / `call_dqBubbleUpMaxF` |
+| `DoublePriorityQueue::bubble_up` | `Crash.DQ.bubbleUpF` | `SrcEquivF.dqBubbleUpF` |
+| `DoublePriorityQueue::push` of a new item | `Crash.DQ.pushF` | `SrcEquivF.dqPushF_new` |
+| `Store::clear` when dropping an element panics: tables empty, `size = 0` | (no twin: stated directly) | `SrcEquivF.storeClearF` |
 
 NOT tied this way: see `PQ/Model/SRC_README.md`.
 
@@ -203,3 +215,10 @@ end PQ.SrcTie
 #print axioms PQ.SrcEquiv.dqDeserialize
 #print axioms PQ.SrcEquiv.pqExtend
 #print axioms PQ.SrcEquiv.dqExtend
+#print axioms PQ.SrcEquivF.pqBubbleUpF
+#print axioms PQ.SrcEquivF.pqPushF_new
+#print axioms PQ.SrcEquivF.storeClearF
+#print axioms PQ.SrcEquivF.call_dqBubbleUpMinF
+#print axioms PQ.SrcEquivF.call_dqBubbleUpMaxF
+#print axioms PQ.SrcEquivF.dqBubbleUpF
+#print axioms PQ.SrcEquivF.dqPushF_new
